@@ -359,7 +359,7 @@ def size_leaves(g):
             if v < (1 << (8 * w)):
                 out.append({"t": "Int", "ty": ty, "v": vlib.le(v, w)})
     # EISA ids are integers: a product number 0000 leaves a word
-    out += [{"t": "Eisa", "s": chars(x)} for x in ("PNP0000", "ACP0000", "PNP0A08", "PNP0001", "ZZZFFFF", "@@@0000", "AAA0100")]
+    out += [{"t": "Eisa", "s": chars(x)} for x in ("PNP0000", "ACP0000", "PNP0A08", "PNP0001", "ZZZFFFF", "AAA0000", "AAA0100")]     # (vendor letters A-Z only: anything else is not an id)
     out += [{"t": "Str", "s": chars(x), "owned": o} for x in ("", "A", "\u00e9") for o in (False, True)]
     out += [{"t": "Path", "s": chars(x)} for x in ("ABCD", "\\ABCD", "AB__.CD__", "\\AB__.CD__", "A___.B___.C___", "\\A___.B___.C___")]
     out += [{"t": "BufferData", "d": [7] * n} for n in (0, 1, 2, 54, 55, 56, 57, 58, 59, 60, 61, 62, 63, 64, 255, 256)]
